@@ -84,10 +84,15 @@ type world struct {
 	violations []violation
 	fetchCount map[string]int // per service, all time
 
+	failAt   int  // index of the send (within the current Do) that gets no response; -1 = none
+	sendIdx  int
+	failed   bool
+	cancelOnFail context.CancelFunc
 	alwaysScope bool
 	noScope  bool           // a Bearer challenge without scope parameter was sent during this call
 	perReq   map[string]int // registry sends per X-Verif-Req (concurrent cases)
 
+	fetchHook func(req *http.Request) error // optional: may abort a token request (concurrency cases)
 	gate func(service string) // optional barrier inside the token endpoint (concurrency cases)
 }
 
@@ -361,6 +366,9 @@ func (w *world) RoundTrip(req *http.Request) (*http.Response, error) {
 	}
 	ev := fmt.Sprintf("R%d:%s", g.idx, w.projectAuthHeader(ah))
 	w.events = append(w.events, ev)
+	if w.injectFailure() {
+		return nil, errInjected
+	}
 
 	repo, action := requiredScope(req)
 	ok := false
@@ -390,6 +398,28 @@ func (w *world) RoundTrip(req *http.Request) (*http.Response, error) {
 		h.Set("Www-Authenticate", ch)
 	}
 	return resp(req, 401, h, "unauthorized"), nil
+}
+
+var errInjected = errors.New("fakeNet: injected transport failure")
+
+// injectFailure is called (under w.mu) once per send after it was logged and
+// scanned: it decides whether this send gets no response.  Any send after a
+// failed one in the same Do call is a violation.
+func (w *world) injectFailure() bool {
+	if w.failed {
+		w.violate("send-after-failure", "a request was sent after an earlier send of the same Do call had failed / its context was cancelled: %v", w.events)
+	}
+	idx := w.sendIdx
+	w.sendIdx++
+	if w.failAt >= 0 && idx == w.failAt {
+		w.failed = true
+		w.answers = append(w.answers, "X")
+		if w.cancelOnFail != nil {
+			w.cancelOnFail()
+		}
+		return true
+	}
+	return false
 }
 
 func oneLine(s string) string {
@@ -489,6 +519,10 @@ func (w *world) tokenEndpoint(req *http.Request, body []byte, dump string) (*htt
 		ev = fmt.Sprintf("D%s:%s:%s:%s:%s", forh, common.Hex(realm), common.Hex(service), common.Hex(scopeStr), basic)
 	}
 	w.events = append(w.events, ev)
+	if w.injectFailure() {
+		w.mu.Unlock()
+		return nil, errInjected
+	}
 	if !w.tokenUp {
 		valid = false
 	}
@@ -508,9 +542,15 @@ func (w *world) tokenEndpoint(req *http.Request, body []byte, dump string) (*htt
 		}
 		out = resp(req, 200, http.Header{"Content-Type": {"application/json"}}, fmt.Sprintf(`{"%s":"%s","expires_in":300}`, field, tk))
 	}
+	hook := w.fetchHook
 	w.mu.Unlock()
 	if gate != nil {
 		gate(service)
+	}
+	if hook != nil {
+		if err := hook(req); err != nil {
+			return nil, err
+		}
 	}
 	return out, nil
 }
@@ -519,7 +559,7 @@ func (w *world) tokenEndpoint(req *http.Request, body []byte, dump string) (*htt
 
 func newWorld(r *common.Rand) *world {
 	w := &world{r: r, byHost: map[string]*regState{}, authHost: map[string]bool{}, tokens: map[string]*issued{},
-		fetchCount: map[string]int{}, tokenUp: true}
+		fetchCount: map[string]int{}, tokenUp: true, failAt: -1}
 	hosts := []string{"reg0.test", "reg1.test:5000", "reg0.test:443", "registry-3.example.io"}
 	n := 2 + r.Intn(3)
 	auths := []string{"auth0.test", "auth1.test:8443"}
@@ -680,6 +720,8 @@ func classifyResult(res *http.Response, err error) string {
 		return "=missing"
 	case strings.Contains(err.Error(), "not rewindable"):
 		return "=rewind"
+	case errors.Is(err, errInjected) || errors.Is(err, context.Canceled):
+		return "=transport"
 	}
 	return "=fetch"
 }
@@ -731,7 +773,7 @@ func historyCase(hseed uint64) {
 		case 2:
 			method, path = http.MethodDelete, "/v2/"+repo+"/manifests/v1"
 		}
-		ctx := context.Background()
+		ctx, cancelReq := context.WithCancel(context.Background())
 		if len(gh) > 0 {
 			ctx = auth.WithScopes(ctx, clone(gh)...)
 		}
@@ -760,13 +802,27 @@ func historyCase(hseed uint64) {
 		w.cur, w.events, w.answers, w.regSends, w.fetches = g, nil, nil, 0, 0
 		w.violations = nil
 		w.noScope = false
-		valid := w.validFor(g, oauth2) && g.mode != modeWeird && body != "once"
+		w.failAt, w.sendIdx, w.failed, w.cancelOnFail = -1, 0, false, nil
+		if r.Chance(1, 8) {
+			// one send of this call gets no response; half of the time because the
+			// caller's context is cancelled at that moment
+			w.failAt = r.Intn(4)
+			if r.Bool() {
+				w.cancelOnFail = cancelReq
+			}
+			run.Count("history/failure-injected")
+		}
+		valid := w.validFor(g, oauth2) && g.mode != modeWeird && body != "once" && w.failAt < 0
 		modeBefore := g.mode
 		res, err := client.Do(req)
 		result := classifyResult(res, err)
 		if res != nil {
 			io.Copy(io.Discard, res.Body)
 			res.Body.Close()
+		}
+		cancelReq()
+		if w.failed && result != "=transport" {
+			run.OracleFail(id, "failure-swallowed", fmt.Sprintf("request %d of history %d: a send got no response but Do ended with %s (%v)", q, hseed, result, err), rep)
 		}
 		fmt.Fprintf(&line, " %d %s %s %s %d", g.idx, body, hexList(hh), hexList(gh), len(w.answers))
 		for _, a := range w.answers {
